@@ -746,6 +746,11 @@ def run(F, R, config=None):
     from . import c14
     K.borrow_rule(R, lambda sub: c14.r9(F, sub, P), "C10-R8", "the stored trace does not depend on the timing of flush()/inspect(): no backend hands bytes to the file "
                   "around its BufWriter, which would write them a second time at the next flush (C14-R9 analysis)", only_rules={"C14-R9"})
+    # what is stored for chain i must not depend on the other chains: the event arrays are trimmed to the maximum count over the chains (C15-R6 analysis)
+    if "zarr" in features(F):
+        from . import c15
+        K.borrow_rule(R, lambda sub: c15.r6(F, sub), "C10-R10", "the events stored for a chain do not depend on which other chains ran: per-dimension event counts are combined "
+                      "by component-wise maxima over the chains, never by a minimum or a tuple ordering (C15-R6 analysis)", only_rules={"C15-R6"})
     R.assume("rand: seed_from_u64 / set_stream are pure; ChaCha8 streams with distinct ids are independent")
     R.assume("Model::math / Model::init_position / Math::* are supplied by the user and are deterministic functions of their arguments and the RNG they are handed")
     R.assume("floating-point kernels are deterministic on one machine (no rule can decide hardware behaviour)")
